@@ -45,7 +45,8 @@ sensitivity() {
   for d in "$VERIF"/seeded/*/; do
     [ -f "$d/patch.diff" ] || continue
     id=$(basename "$d")
-    prop=$(python3 -c 'import json,sys; print(json.load(open(sys.argv[1]))["property"])' "$d/meta.json")
+    if [ -n "${VERIF_SENS_ONLY:-}" ] && [[ " $VERIF_SENS_ONLY " != *" $id "* ]]; then continue; fi
+    prop=$(python3 -c 'import json,sys; m=json.load(open(sys.argv[1])); print(m.get("check_property", m["property"]))' "$d/meta.json")
     expect=$(python3 -c 'import json,sys; print(json.load(open(sys.argv[1])).get("caught_by_quick", True))' "$d/meta.json")
     scratch="$TMPROOT/repo-$id"
     rsync -a --exclude .git /repo/ "$scratch/" || exit 2
